@@ -92,7 +92,7 @@ func runC03(s *scenario, seed uint64) {
 	master := hx.NewRand(hx.NewRand(seed).U64() ^ 0xC03C03C03)
 	runs := 10
 	if s.thorough {
-		runs = 150
+		runs = 1500 // as many as fit into the wall-time budget
 	}
 	if s.only < 0 {
 		c03Lag(s, "fill")
